@@ -66,7 +66,7 @@ PARAMS: list[dict[str, Any]] = [
 def shards(tier: str, seed: int) -> list[dict[str, Any]]:
     if tier == "quick":
         return [{"kind": "services", "n": 150, "part": i} for i in range(8)] + [{"kind": "identifiers", "n": 100, "part": i} for i in range(8)]
-    return [{"kind": "services", "n": 2500, "part": i} for i in range(16)] + [{"kind": "identifiers", "n": 1500, "part": i} for i in range(16)]
+    return [{"kind": "services", "n": 1800, "part": i} for i in range(16)] + [{"kind": "identifiers", "n": 1100, "part": i} for i in range(16)]
 
 
 def required_reach(tier: str) -> dict[str, int]:
